@@ -116,6 +116,11 @@ theorem TR.allN {a : Bool} {e e' : Expr} (h : TR F G a e e')
   | squash _ _ _ _ _ => intro _; trivial
   | skip _ _ => intro _; trivial
 
+/-- rewriting keeps a body that cannot fail a body that cannot fail -/
+theorem TR.totalBody {a : Bool} {e e' : Expr} (h : TR F G a e e') (ht : totalBody e = true) :
+    totalBody e' = true := by
+  cases h <;> first | exact ht | rfl | (simp [Pest.totalBody] at ht)
+
 /-! ### same root, related children -/
 
 inductive Cong1 (R : Expr → Expr → Prop) : Expr → Expr → Prop
